@@ -45,6 +45,9 @@ var ErrSubjectAlreadyExists = errors.New("subject already exists")
 // ErrSubjectNotFound is returned when a subject is not found.
 var ErrSubjectNotFound = errors.New("subject not found")
 
+// ErrPendingChange is returned when a subject can't be changed because a previous change has not been committed or rolled back yet.
+var ErrPendingChange = errors.New("subject has a pending change, try again later")
+
 // MethodManager keeps DID method specific state in sync with the DID sql database.
 type MethodManager interface {
 	// NewDocument generates a new DID document for the given subject.
